@@ -4,3 +4,5 @@ import Rp2.Props.C06
 #print axioms Rp2.C06.key_uses_event_year
 #print axioms Rp2.C06.to_date_cut_is_filter
 #print axioms Rp2.C06.source_iterator_is_window
+#print axioms Rp2.C06.source_yearly_loop_is_model
+#print axioms Rp2.C06.source_yearly_cut
